@@ -104,6 +104,22 @@ def opener_rules(facts, rep, rule="C01-OPENERS"):
 
 
 # field of the pushed record -> predicate on its (normalised) defining expression
+def _raw_or_zero(v, fld):
+    """`raw_values.unwrap_or(ZipRawValues { 0, 0, 0 }).fld`, `raw_values.unwrap_or_default().fld`, or the same choice spelled as a match:
+    the value is the raw copy's `fld` when raw values were given and the constant 0 otherwise -- nothing else"""
+    from engine.expr import alts
+    if v[0] == "field" and v[2] == fld and v[1][0] == "call" and v[1][2] and v[1][2][0][0] == "arg" and v[1][2][0][2] == "raw_values":
+        if v[1][1].endswith("::unwrap_or") and v[1][2][1][0] == "agg" and all(x_[1][0] == "const" and x_[1][2] == 0 for x_ in v[1][2][1][3]):
+            return True
+        if v[1][1].endswith("::unwrap_or_default"):        # (a derived Default of three integers is three zeros)
+            return True
+    al = alts(v)
+    zero = [a_ for a_ in al if a_[0] == "const" and a_[2] == 0]
+    raw = [a_ for a_ in al if a_[0] == "field" and a_[2] == fld and any(x_[0] == "arg" and x_[2] == "raw_values" for x_ in _walk(a_)) and
+           not any(x_[0] == "call" and not re.search(r"unwrap|expect", x_[1]) for x_ in _walk(a_))]
+    return len(al) == 2 and len(zero) == 1 and len(raw) == 1
+
+
 def _entry_table(argname_opts="options"):
     def optfield(name):
         return lambda v: v[0] == "field" and v[2] == name and v[1][0] == "arg" and v[1][2] == argname_opts
@@ -121,9 +137,7 @@ def _entry_table(argname_opts="options"):
         "extra_field": (lambda v: v[0] == "call" and re.search(r"Vec::<T>::new$|Vec::new$|Default::default$|Vec::<T>::with_capacity$", v[1]) is not None, "Vec::new()"),
         # sizes and CRC: the raw values handed in by a raw copy, or zeros -- what a directory or symlink entry keeps (finish_file patches
         # only entries that were written to), so a non-zero default is the declared size/CRC of every directory
-        **{k_: ((lambda k__: (lambda v: v[0] == "field" and v[2] == k__ and v[1][0] == "call" and v[1][2][0][0] == "arg" and v[1][2][0][2] == "raw_values" and
-                              ((v[1][1].endswith("::unwrap_or") and v[1][2][1][0] == "agg" and all(x_[1][0] == "const" and x_[1][2] == 0 for x_ in v[1][2][1][3])) or
-                               v[1][1].endswith("::unwrap_or_default"))))(k_),      # (a derived Default of three integers is three zeros)
+        **{k_: ((lambda k__: (lambda v: _raw_or_zero(v, k__)))(k_),
                  "raw_values.%s, or 0 when the entry is not a raw copy" % k_) for k_ in ("crc32", "compressed_size", "uncompressed_size")},
         "system": (lambda v: v[0] == "agg" and v[1] == "adt:Unix", "System::Unix"),
         "file_comment": (lambda v: (v[0] == "call" and re.search(r"String::new$|Default::default$", v[1]) is not None) or (v[0] == "const" and v[2] in ("", None)), "String::new()"),
